@@ -105,4 +105,122 @@ theorem wavParse_chain_nopeak (b : Bool) (codec ch : Nat) (sr : Int) (X P : List
   rcases hcodec with h | h | h | h | h | h | h | h <;> subst h <;> cases b <;>
     simp [h12, hc1, wavFormatTag, wavBits, isG711, wavNb] <;> omega
 
+/-! ## … and WITH a PEAK chunk in front of the data: the table has one entry per channel -/
+
+theorem parsePeaks_length (big : Bool) (bs : List Byte) (off n : Nat) : (parsePeaks big bs off n).length = n := by
+  induction n generalizing off with
+  | zero => rfl
+  | succ n ih => simp [parsePeaks, ih]
+
+theorem wavScan_chain_peak (b : Bool) (codec nb ch : Nat) (sr : Int) (X P : List Byte) (fl : Int) (dl : Nat) (rest : List Byte)
+    (hch : ch ≤ 1024) (hnb : nb ≤ 8)
+    (hX : X = [] ∨ ∃ v, X = marker "fact" ++ (u32 b 4 ++ u32 b v))
+    (hP : ∃ body, P = marker "PEAK" ++ (u32 b ((8 + 8 * ch : Nat) : Int) ++ body) ∧ body.length = 8 + 8 * ch)
+    (hdl : dl < 0xFFFFFFFF) (hr1 : dl ≤ rest.length) (hr2 : rest.length ≤ dl + 1) :
+    ∃ ps : List Peak, ps.length = ch ∧ wavScan b (wavChain b codec nb ch sr X P fl dl rest) (wavChain b codec nb ch sr X P fl dl rest).length 64 12 {} =
+      some { fmtTag := wavFormatTag codec, ch := ch, sr := wrapU 32 sr, bits := (wavBits codec nb).toNat, haveFmt := true,
+             dataoffset := 16 + wavFmtLen codec + X.length + P.length + 8, datalength := ((dl + dl % 2 : Nat) : Int),
+             dataend := if dl < rest.length then ((16 + wavFmtLen codec + X.length + P.length + 8 + dl : Nat) : Int) else 0,
+             peak := some ps, peakAtStart := true, haveData := true } := by
+  have hfl0 : wavFmtLen codec = 20 + (if isG711 codec then u16 b 0 else []).length := by
+    unfold wavFmtLen isG711; split <;> simp [u16_length_ct]
+  have hfsz0 : (if isG711 codec then (18 : Int) else 16) = ((16 + (if isG711 codec then u16 b 0 else []).length : Nat) : Int) := by
+    split <;> simp [u16_length_ct]
+  have hbits : wavBits codec nb = (((wavBits codec nb).toNat : Nat) : Int) := by
+    unfold wavBits; split <;> omega
+  have hbitsl : (wavBits codec nb).toNat < 2 ^ 16 := by unfold wavBits; split <;> omega
+  have hdlv : (if (dl : Int) < 0xFFFFFFFF then (dl : Int) else 0xFFFFFFFF) = (dl : Int) := by
+    have : (dl : Int) < 0xFFFFFFFF := by omega
+    simp [this]
+  unfold wavChain
+  rw [hfsz0, hbits, hdlv, hfl0]
+  generalize (if isG711 codec then u16 b 0 else []) = ext at *
+  have hextl : ext.length = 0 ∨ ext.length = 2 := by omega
+  generalize hR : (if b then marker "RIFX" else marker "RIFF") = R
+  have hRl : R.length = 4 := by rw [← hR]; cases b <;> rfl
+  generalize hU : u32 b (if fl < 8 then 8 else (if fl - 8 < 0xFFFFFFFF then fl - 8 else 0xFFFFFFFF)) = U
+  have hUl : U.length = 4 := by rw [← hU]; exact u32_length_ct _ _
+  generalize hbs : R ++ (U ++ (marker "WAVE" ++ (marker "fmt " ++ (u32 b ((16 + ext.length : Nat) : Int) ++
+      (u16 b ((wavFormatTag codec : Nat) : Int) ++ (u16 b (ch : Int) ++ (u32 b sr ++ (u32 b (sr * (nb : Int) * ch) ++
+      (u16 b ((nb : Int) * ch) ++ (u16 b (((wavBits codec nb).toNat : Nat) : Int) ++
+      (ext ++ (X ++ (P ++ (marker "data" ++ (u32 b (dl : Int) ++ rest))))))))))))))) = bs
+  -- stage A: fmt
+  have hA : bs = (R ++ (U ++ marker "WAVE")) ++ (marker "fmt " ++ (u32 b ((16 + ext.length : Nat) : Int) ++
+      (u16 b ((wavFormatTag codec : Nat) : Int) ++ (u16 b (ch : Int) ++ (u32 b sr ++ (u32 b (sr * (nb : Int) * ch) ++
+      (u16 b ((nb : Int) * ch) ++ (u16 b (((wavBits codec nb).toNat : Nat) : Int) ++
+      (ext ++ (X ++ (P ++ (marker "data" ++ (u32 b (dl : Int) ++ rest))))))))))))) := by
+    rw [← hbs]; simp only [List.append_assoc]
+  have eA := scan_fmt_at b bs _ ext _ _ _ ch _ sr _ _ 63 hA (by simp [hRl, hUl]) rfl hextl
+    (by simp [u32_length_ct]; omega) (wavFormatTag_lt codec) (by omega) hbitsl
+  rw [eA]
+  obtain ⟨pa, hpa, hpal⟩ : ∃ pa : List Byte,
+      bs = pa ++ (X ++ (P ++ (marker "data" ++ (u32 b (dl : Int) ++ rest)))) ∧ pa.length = 36 + ext.length :=
+    ⟨R ++ (U ++ (marker "WAVE" ++ (marker "fmt " ++ (u32 b ((16 + ext.length : Nat) : Int) ++
+      (u16 b ((wavFormatTag codec : Nat) : Int) ++ (u16 b (ch : Int) ++ (u32 b sr ++ (u32 b (sr * (nb : Int) * ch) ++
+      (u16 b ((nb : Int) * ch) ++ (u16 b (((wavBits codec nb).toNat : Nat) : Int) ++ ext)))))))))),
+     by rw [← hbs]; simp only [List.append_assoc], by simp [hRl, hUl, u32_length_ct, u16_length_ct]; omega⟩
+  clear hA eA hbs
+  obtain ⟨body, hP, hbody⟩ := hP
+  rcases hX with hX | ⟨v, hX⟩ <;> subst hX <;> subst hP
+  · -- PEAK only
+    simp only [List.nil_append, List.append_assoc] at hpa
+    rw [scan_peak_at b bs pa body _ ch 62 _ _ hpa hpal hbody hch rfl rfl (by simp [u32_length_ct])]
+    have hpa2 : bs = (pa ++ (marker "PEAK" ++ (u32 b ((8 + 8 * ch : Nat) : Int) ++ body))) ++
+        (marker "data" ++ (u32 b (dl : Int) ++ rest)) := by rw [hpa]; simp only [List.append_assoc]
+    rw [scan_data_at b bs _ rest dl 61 _ _ hpa2 (by simp [hpal, u32_length_ct, hbody] <;> omega) (by omega) rfl hr1 hr2]
+    refine ⟨parsePeaks b bs (36 + ext.length + 8 + 8) ch, parsePeaks_length _ _ _ _, ?_⟩
+    have e1 : 16 + (20 + ext.length) + 0 + (4 + (4 + (8 + 8 * ch))) + 8 = 36 + ext.length + 16 + 8 * ch + 8 := by omega
+    simp [u32_length_ct, hbody, e1]
+    refine ⟨?_, ?_, ?_⟩ <;> (try split) <;> omega
+  · -- fact and PEAK
+    simp only [List.append_assoc] at hpa
+    rw [scan_fact_at b bs pa _ v 62 _ _ hpa hpal (by simp [u32_length_ct])]
+    have hpa1 : bs = (pa ++ (marker "fact" ++ (u32 b 4 ++ u32 b v))) ++
+        (marker "PEAK" ++ (u32 b ((8 + 8 * ch : Nat) : Int) ++ (body ++ (marker "data" ++ (u32 b (dl : Int) ++ rest))))) := by
+      rw [hpa]; simp only [List.append_assoc]
+    rw [scan_peak_at b bs _ body _ ch 61 _ _ hpa1 (by simp [hpal, u32_length_ct] <;> omega) hbody hch rfl rfl (by simp [u32_length_ct])]
+    have hpa2 : bs = (pa ++ (marker "fact" ++ (u32 b 4 ++ u32 b v)) ++ (marker "PEAK" ++ (u32 b ((8 + 8 * ch : Nat) : Int) ++ body))) ++
+        (marker "data" ++ (u32 b (dl : Int) ++ rest)) := by rw [hpa]; simp only [List.append_assoc]
+    rw [scan_data_at b bs _ rest dl 60 _ _ hpa2 (by simp [hpal, u32_length_ct, hbody] <;> omega) (by omega) rfl hr1 hr2]
+    refine ⟨parsePeaks b bs (36 + ext.length + 12 + 8 + 8) ch, parsePeaks_length _ _ _ _, ?_⟩
+    simp [u32_length_ct, hbody]
+    refine ⟨?_, ?_, ?_⟩ <;> (try split) <;> omega
+
+
+theorem wavParse_chain_peak (b : Bool) (codec ch : Nat) (sr : Int) (X P : List Byte) (fl : Int) (dl : Nat) (rest : List Byte)
+    (hcodec : codec ∈ wavCodecs) (hch : 1 ≤ ch ∧ ch ≤ 1024)
+    (hX : X = [] ∨ ∃ v, X = marker "fact" ++ (u32 b 4 ++ u32 b v))
+    (hP : ∃ body, P = marker "PEAK" ++ (u32 b ((8 + 8 * ch : Nat) : Int) ++ body) ∧ body.length = 8 + 8 * ch)
+    (hdl : dl < 0xFFFFFFFF) (hr1 : dl ≤ rest.length) (hr2 : rest.length ≤ dl + 1) :
+    ∃ ps : List Peak, ps.length = ch ∧ wavParse (wavChain b codec (wavNb codec) ch sr X P fl dl rest) =
+      .ok { fmtWord := (if b then 0x20000000 else 0) + 0x010000 + codec, ch := ch, sr := wrapU 32 sr, big := b,
+            dataoffset := 16 + wavFmtLen codec + X.length + P.length + 8, datalength := ((dl + dl % 2 : Nat) : Int),
+            dataend := if dl < rest.length then ((16 + wavFmtLen codec + X.length + P.length + 8 + dl : Nat) : Int) else 0,
+            filelength := ((16 + wavFmtLen codec + X.length + P.length + 8 + rest.length : Nat) : Int),
+            peak := some ps, peakAtStart := true } := by
+  obtain ⟨ps, hpsl, hscan⟩ := wavScan_chain_peak b codec (wavNb codec) ch sr X P fl dl rest hch.2
+    (by simp [wavCodecs] at hcodec; rcases hcodec with h | h | h | h | h | h | h | h <;> subst h <;> decide) hX hP hdl hr1 hr2
+  refine ⟨ps, hpsl, ?_⟩
+  generalize hbs : wavChain b codec (wavNb codec) ch sr X P fl dl rest = bs at hscan ⊢
+  have hlen : bs.length = 16 + wavFmtLen codec + X.length + P.length + 8 + rest.length := by
+    rw [← hbs]; unfold wavChain wavFmtLen isG711
+    by_cases hg : (codec == 0x10 || codec == 0x11) = true <;> cases b <;>
+      simp [hg, u32_length_ct, u16_length_ct] <;> omega
+  have htake : bs.take 4 = (if b then marker "RIFX" else marker "RIFF") := by
+    rw [← hbs]; unfold wavChain; cases b <;> simp
+  have hwave : (bs.drop 8).take 4 = marker "WAVE" := by
+    rw [← hbs]; unfold wavChain
+    exact take4_of_At rfl ((At.skip _ (At.skip _ (At.here _ _))).cast (by cases b <;> simp [u32_length_ct]))
+  have hbig : ((if b then marker "RIFX" else marker "RIFF") == marker "RIFX") = b := by cases b <;> decide
+  have hlit : ((if b then marker "RIFX" else marker "RIFF") == marker "RIFF") = !b := by cases b <;> decide
+  have hww : (marker "WAVE" != marker "WAVE") = false := by decide
+  unfold wavParse
+  rw [hlen] at hscan
+  simp only [htake, hwave, hlen, hbig, hlit, hscan, hww]
+  have h12 : ¬ (16 + wavFmtLen codec + X.length + P.length + 8 + rest.length < 12) := by omega
+  have hc1 : ¬ (ch < 1 ∨ ch > 1024) := by omega
+  simp [wavCodecs] at hcodec
+  rcases hcodec with h | h | h | h | h | h | h | h <;> subst h <;> cases b <;>
+    simp [h12, hc1, wavFormatTag, wavBits, isG711, wavNb] <;> omega
+
 end Sf
